@@ -102,6 +102,72 @@ fn program(shape: &str, n: u64) -> (String, String) {
     (body.replace("__N__", &n_s), expect)
 }
 
+/// the program of a case: a fixed shape or a generated tail-context template
+fn program_of(case: &Value, n: u64) -> (String, String) {
+    if let Some(tpl) = case["template"].as_str() {
+        let expect = if case["expect"] == "true" { "True".to_string() } else { n.to_string() };
+        return (tpl.replace("__N__", &n.to_string()), expect);
+    }
+    program(case["shape"].as_str().unwrap_or(""), n)
+}
+
+/// A generated loop whose recursive call sits in a tail position built from nested tail contexts
+/// (branches of if / match, let bodies, the right operand of `||` and `&&`, parentheses, a
+/// sequence after a discarded binding), optionally spread over 2-3 mutually recursive functions.
+/// Conditions depend on `n` so that nothing can be folded away; on the path taken (n >= 1) every
+/// context continues into the call. Result type Int (the accumulator) or Bool (needed for `||` /
+/// `&&` contexts; the base case is True).
+fn gen_tail_template(t: &mut Tape) -> (String, bool, Vec<String>) {
+    let nfun = 1 + t.pick(3);
+    let boolean = t.chance(1, 2);
+    let base = if boolean { "True" } else { "acc" };
+    let names = ["go", "hop", "skip"];
+    let mut used: Vec<String> = vec![];
+    let mut funs: Vec<String> = vec![];
+    for i in 0..nfun {
+        let next = names[(i + 1) % nfun];
+        let ind = |ls: Vec<String>| -> Vec<String> { ls.into_iter().map(|l| format!("    {}", l)).collect() };
+        let close = |mut ls: Vec<String>, tail: &str| -> Vec<String> {
+            if let Some(l) = ls.last_mut() {
+                l.push_str(tail);
+            }
+            ls
+        };
+        let cat = |head: Vec<String>, rest: Vec<String>| -> Vec<String> { head.into_iter().chain(rest).collect() };
+        let mut e: Vec<String> = vec![format!("{} (n #Int- 1) (acc #Int+ 1)", next)];
+        let depth = 1 + t.pick(4);
+        for d in 0..depth {
+            let pick = t.pick(if boolean { 13 } else { 10 });
+            let (name, wrapped): (&str, Vec<String>) = match pick {
+                0 => ("if_else_branch", cat(vec![format!("if n #Int< 0 then {} else", base)], ind(e))),
+                1 => ("if_then_branch", cat(cat(vec!["if 0 #Int< n then".to_string()], ind(e)), vec![format!("else {}", base)])),
+                2 => ("match_bool_arm", cat(vec!["match 0 #Int< n with".to_string(), format!("| False -> {}", base), "| True ->".to_string()], ind(e))),
+                3 => ("match_tuple_arm", cat(vec!["match (n, acc) with".to_string(), format!("| (0, _) -> {}", base), format!("| (k{}, _) ->", d)], ind(e))),
+                4 => ("match_option_arm", cat(vec!["match Some n with".to_string(), format!("| None -> {}", base), format!("| Some k{} ->", d)], ind(e))),
+                5 => ("let_block_body", cat(vec![format!("let k{d} = n #Int+ {d}", d = d)], e)),
+                6 => ("let_tuple_pattern_body", cat(vec![format!("let (k{d}, _) = (n, {d})", d = d)], e)),
+                7 => ("let_function_body", cat(vec![format!("let k{} x = acc #Int+ x", d)], e)),
+                8 => ("discarded_binding_then", cat(vec!["let _ = (n, acc)".to_string()], e)),
+                9 => ("record_pattern_let_body", cat(vec![format!("let {{ p{d} }} = {{ p{d} = n }}", d = d)], e)),
+                10 => ("or_right_operand", close(cat(vec!["(n #Int< 0) || (".to_string()], ind(e)), ")")),
+                11 => ("and_right_operand", close(cat(vec!["(0 #Int< n) && (".to_string()], ind(e)), ")")),
+                _ => ("or_then_and", close(cat(vec!["(n #Int< 0) || ((0 #Int< n) && (".to_string()], ind(e)), "))")),
+            };
+            if !used.iter().any(|u| u == name) {
+                used.push(name.to_string());
+            }
+            e = wrapped;
+        }
+        let body = ind(cat(vec![format!("if n #Int< 1 then {} else", base)], ind(e)));
+        funs.push(format!("let {} n acc =\n{}", names[i], body.join("\n")));
+    }
+    if nfun > 1 {
+        used.push(format!("mutual_{}", nfun));
+    }
+    let tpl = format!("rec\n{}\nin\ngo __N__ 0", funs.join("\n"));
+    (tpl, boolean, used)
+}
+
 const STACK_LIMITS: &[u64] = &[0, 64, 200, 1000, 10_000];
 const MEM_LIMITS: &[u64] = &[0, 2048, 16_384, 262_144, 4_194_304];
 const REF_N: u64 = 50;
@@ -143,8 +209,8 @@ impl Property for C07 {
     }
     fn plan(&self, tier: Tier) -> Plan {
         Plan {
-            random_cases: tier.pick(300, 6000),
-            tape_len: 16,
+            random_cases: tier.pick(3000, 60_000),
+            tape_len: 40,
             watchdog_s: 120,
             worker_recycle: 100,
             // the worker's native stack is an ordinary 8 MiB one: exhausting it is the violation
@@ -186,6 +252,13 @@ impl Property for C07 {
         ))
     }
     fn gen(&self, t: &mut Tape, tier: Tier) -> Value {
+        if t.chance(2, 5) {
+            let (tpl, boolean, used) = gen_tail_template(t);
+            let n = 1 + t.pick(tier.pick(20_000, 150_000)) as u64;
+            let sl = if t.chance(1, 4) { 0 } else { 32 + t.pick(3000) as u64 };
+            return json!({"k": "limit", "shape": "tail_generated", "tail": true, "allocating": false, "n": n, "stack_limit": sl, "mem_limit": 0,
+                "template": tpl, "expect": if boolean { "true" } else { "n" }, "contexts": used});
+        }
         let shape = &SHAPES[t.pick(SHAPES.len())];
         let n = 1 + t.pick(tier.pick(20_000, 150_000)) as u64;
         let sl = if t.chance(1, 3) { 0 } else { 16 + t.pick(5000) as u64 };
@@ -223,11 +296,11 @@ impl Property for C07 {
         let shape = case["shape"].as_str().unwrap_or("");
         let n = case["n"].as_u64().unwrap_or(1);
         let (sl, ml) = (case["stack_limit"].as_u64().unwrap_or(0), case["mem_limit"].as_u64().unwrap_or(0));
-        let (src, expect) = program(shape, n);
+        let (src, expect) = program_of(case, n);
         let main = run_limited(root, &src, sl, ml);
         let mut res = json!({"main": main, "expect": expect, "src": src});
         if case["tail"].as_bool().unwrap_or(false) {
-            let (rsrc, rexpect) = program(shape, REF_N);
+            let (rsrc, rexpect) = program_of(case, REF_N);
             res["reference"] = run_limited(root, &rsrc, sl, ml);
             res["reference_expect"] = json!(rexpect);
         }
@@ -236,7 +309,12 @@ impl Property for C07 {
     fn judge(&self, case: &Value, obs: &Obs, kf: &KnownFindings) -> Judged {
         let mut j = Judged::pass();
         let shape = case["shape"].as_str().unwrap_or("");
-        let feats = vec![format!("shape:{}", shape)];
+        let mut feats = vec![format!("shape:{}", shape)];
+        if let Some(cs) = case["contexts"].as_array() {
+            for c in cs {
+                feats.push(format!("tailctx:{}", c.as_str().unwrap_or("")));
+            }
+        }
         let show = || format!("case {}", case);
         let v = match obs {
             Obs::Ok(v) => v,
@@ -260,7 +338,7 @@ impl Property for C07 {
                         "the host died or panicked (native stack exhausted?) instead of reporting a limit: {}\n{}\nprogram:\n{}",
                         other.to_json(),
                         show(),
-                        program(shape, case["n"].as_u64().unwrap_or(1)).0
+                        program_of(case, case["n"].as_u64().unwrap_or(1)).0
                     )),
                 };
                 return j;
@@ -289,6 +367,9 @@ impl Property for C07 {
         let src = v["src"].as_str().unwrap_or("");
         let kind = kind_of(&out);
         j.classes.push(format!("shape:{}", shape));
+        for f in feats.iter().filter(|f| f.starts_with("tailctx:")) {
+            j.classes.push(f.clone());
+        }
         j.classes.push(format!("outcome:{}", kind.split(':').next().unwrap_or("")));
         // 1. the outcome is the value or the failure of a configured limit
         // an out-of-memory failure raised inside a primitive reaches the host as a panic-class error
